@@ -1,6 +1,8 @@
 package main
 
 import (
+	"go/types"
+
 	"golang.org/x/tools/go/ssa"
 )
 
@@ -78,8 +80,74 @@ func (u *Unit) execGo(fr *Frame, g *ssa.Go, st *State) {
 	}
 	if !known {
 		fr.goUnknown = true
+	} else {
+		mc := g.Call.Value.(*ssa.MakeClosure)
+		fn := mc.Fn.(*ssa.Function)
+		all, heaps := u.closureEffect(fr, fn, map[*ssa.Function]bool{})
+		if all {
+			fr.goAll = true
+		}
+		if fr.goHeaps == nil {
+			fr.goHeaps = map[string]bool{}
+		}
+		for _, h := range heaps {
+			fr.goHeaps[h] = true
+		}
 	}
 	u.havocConcurrent(fr, st, "go")
+}
+
+// closureEffect: which heaps a spawned closure may write (all = anything).
+func (u *Unit) closureEffect(fr *Frame, fn *ssa.Function, seen map[*ssa.Function]bool) (all bool, heaps []string) {
+	if fn == nil || seen[fn] {
+		return false, nil
+	}
+	seen[fn] = true
+	cset := map[*Cell]bool{}
+	hset := map[string]bool{}
+	tmp := &Frame{fn: fn, cells: map[*ssa.Alloc]*Cell{}}
+	for _, b := range fn.Blocks {
+		for _, in := range b.Instrs {
+			switch i := in.(type) {
+			case *ssa.Store:
+				if _, isFV := i.Addr.(*ssa.FreeVar); isFV {
+					continue // captured local: handled through goWritten
+				}
+				u.classifyWrite(tmp, i.Addr, cset, hset, &all)
+			case *ssa.MapUpdate:
+				all = true
+			case *ssa.MakeClosure:
+				if inner, ok := i.Fn.(*ssa.Function); ok {
+					a, hs := u.closureEffect(fr, inner, seen)
+					all = all || a
+					for _, h := range hs {
+						hset[h] = true
+					}
+				}
+			case ssa.CallInstruction:
+				c := i.Common()
+				if _, isDefer := in.(*ssa.Defer); isDefer && isNoopCall(u, c) {
+					continue
+				}
+				switch u.callEffect(fr, c) {
+				case effAll:
+					// calling a closure created in place is covered by MakeClosure above
+					if _, isMC := c.Value.(*ssa.MakeClosure); !isMC {
+						all = true
+					}
+				case effNone:
+				default:
+					for _, h := range u.callFrameHeaps(fr, c) {
+						hset[h] = true
+					}
+				}
+			}
+		}
+	}
+	for h := range hset {
+		heaps = append(heaps, h)
+	}
+	return
 }
 
 // havocConcurrent: arbitrary heap effects of the goroutines this activation has spawned (at a go
@@ -102,7 +170,22 @@ func (u *Unit) havocConcurrent(fr *Frame, st *State, why string) {
 			keep = append(keep, saved{l, u.load(st, l)})
 		}
 	}
-	u.havocHeaps(st, nil, why)
+	if fr.goUnknown || fr.goAll {
+		u.havocHeaps(st, nil, why)
+	} else {
+		var hs []string
+		for h := range fr.goHeaps {
+			hs = append(hs, h)
+		}
+		sortStrings(hs)
+		// captured locals the goroutines assign live in box heaps
+		for al := range fr.goWritten {
+			hs = append(hs, "B:"+u.typeKey(al.Type().Underlying().(*types.Pointer).Elem()))
+		}
+		if len(hs) > 0 {
+			u.havocHeaps(st, hs, why)
+		}
+	}
 	for _, s := range keep {
 		v := s.v
 		if v.T.S != "" {
